@@ -78,6 +78,7 @@ static const char *out_path;
 static int out_fd = 1;
 static double deadline;
 static int case_timeout = 60;
+static int listing;
 
 /* ------------------------------------------------------------------ hash */
 uint64_t vf_hash(const void *p, size_t n)
@@ -223,6 +224,15 @@ int vf_case(const char *fmt, ...)
 {
 	finalize_case();
 	cur_idx++;
+	if (listing) {
+		va_list lap;
+		va_start(lap, fmt);
+		printf("%ld\t", cur_idx);
+		vprintf(fmt, lap);
+		printf("\n");
+		va_end(lap);
+		return 0;
+	}
 	if (vf_replaying) {
 		if (cur_idx > replay_idx) {
 			S->done = 1;
@@ -292,9 +302,19 @@ void vf_violation(const char *key, const char *fmt, ...)
 	vsnprintf(detail, sizeof detail, fmt, ap);
 	va_end(ap);
 	S->nviol++;
-	/* cap the number of lines per shard; the count stays exact */
-	if (S->nviol > 400)
-		return;
+	/* cap the number of lines per finding key and shard; the total count stays exact */
+	{
+		static struct { uint64_t h; int n; } seen[512];
+		uint64_t h = vf_hash_str(key) | 1;
+		int i;
+		for (i = 0; i < 512 && seen[i].h && seen[i].h != h; i++)
+			;
+		if (i == 512)
+			return;
+		seen[i].h = h;
+		if (++seen[i].n > 12)
+			return;
+	}
 	char kesc[512];
 	snprintf(kesc, sizeof kesc, "%s", vf_esc(key));
 	char desc_esc[4200];
@@ -347,36 +367,38 @@ int vf_lsan_check(void)
 }
 
 /* ------------------------------------------------------------------ merge tool */
+static int cmp_u64(const void *a, const void *b)
+{
+	uint64_t x = *(const uint64_t *)a, y = *(const uint64_t *)b;
+	return x < y ? -1 : x > y;
+}
+
+/* count distinct 64-bit values over the per-shard dumps (sort-based: memory proportional to the input) */
 static int merge_count(int n, char **files)
 {
-	struct hset *h = mmap(NULL, sizeof *h, PROT_READ | PROT_WRITE, MAP_PRIVATE | MAP_ANONYMOUS, -1, 0);
-	/* merging may exceed half the table; allow fill up to 7/8 here */
-	uint64_t total = 0;
+	size_t cap = 1 << 20, cnt = 0;
+	uint64_t *a = malloc(cap * sizeof *a);
 	for (int i = 0; i < n; i++) {
 		FILE *f = fopen(files[i], "rb");
 		if (!f)
 			continue;
 		uint64_t v;
 		while (fread(&v, sizeof v, 1, f) == 1) {
-			uint64_t k = v & (SETCAP - 1);
-			for (;;) {
-				if (h->slot[k] == v)
-					break;
-				if (h->slot[k] == 0) {
-					if (total >= (SETCAP / 8) * 7) {
-						h->saturated = 1;
-						break;
-					}
-					h->slot[k] = v;
-					total++;
-					break;
-				}
-				k = (k + 1) & (SETCAP - 1);
+			if (cnt == cap) {
+				cap *= 2;
+				a = realloc(a, cap * sizeof *a);
 			}
+			a[cnt++] = v;
 		}
 		fclose(f);
 	}
-	printf("%llu %d\n", (unsigned long long)total, h->saturated);
+	qsort(a, cnt, sizeof *a, cmp_u64);
+	size_t distinct = 0;
+	for (size_t i = 0; i < cnt; i++)
+		if (i == 0 || a[i] != a[i - 1])
+			distinct++;
+	printf("%zu 0\n", distinct);
+	free(a);
 	return 0;
 }
 
@@ -440,6 +462,8 @@ int vf_main(int argc, char **argv, void (*enumerate)(void))
 			vf_param = atol(argv[++i]);
 		else if (!strcmp(argv[i], "--case-timeout") && i + 1 < argc)
 			case_timeout = atoi(argv[++i]);
+		else if (!strcmp(argv[i], "--list"))
+			listing = 1;
 		else if (!strcmp(argv[i], "--merge-count"))
 			return merge_count(argc - i - 1, argv + i + 1);
 		else {
@@ -461,6 +485,10 @@ int vf_main(int argc, char **argv, void (*enumerate)(void))
 	}
 	S->inflight = -1;
 
+	if (listing) {
+		enumerate();
+		return 0;
+	}
 	if (replay) {
 		vf_replaying = 1;
 		enumerate();
